@@ -372,6 +372,11 @@ def listing_validity(ctx) -> None:
     for h in [n for n in ast.walk(key.node) if isinstance(n, ast.ExceptHandler)]:
         ts = h.type.elts if isinstance(h.type, ast.Tuple) else [h.type]
         caught |= {core.src(t) for t in ts if t is not None}
+    rk = [r for r in key.body if isinstance(r, ast.Return)]
+    ctx.check(len(rk) == 1 and core.src(rk[0].value) == 'path.is_dir() and constructs(path.name)', 'C05.listing', key, 'a listed key is a directory AND its name constructs a valid key of the level', rk[0] if rk else key.node, key='key:conjunction')
+    cons = key.nested('constructs')
+    tr = next((x for x in cons.body if isinstance(x, ast.Try)), None)
+    ctx.check(tr is not None and len(tr.body) == 1 and core.src(tr.body[0]) == f'cls.constructor({cons.param_names[0]})' and all(core.is_const(r.value, False) for h in tr.handlers for r in ast.walk(h) if isinstance(r, ast.Return)) and isinstance(cons.body[-1], ast.Return) and core.is_const(cons.body[-1].value, True), 'C05.listing', cons, 'constructs(name) = the level key constructor accepts the name', cons.node, key='key:constructs')
     inv = prog.cls(f'{DIRECTORY}:Level.Key.Invalid')
     ext = set(inv.external_bases())
     ctx.check(bool(caught & ext) or 'Exception' in caught, 'C05.listing', key, f'Level.Key.Invalid (bases {sorted(ext)}) is caught by Matcher.key ({sorted(caught)}): an invalid directory name is skipped, not fatal', key.node, key='key:exceptions')
